@@ -419,12 +419,37 @@ def dataOf (bs : List (Str × Arg)) : Data :=
   { args := bs.map (fun b => (b.1, encodeArg b.2)),
     splitargs := (bs.filter (fun b => b.2.isSplit)).map (·.1) }
 
+/-- What one argument looks like after JSON → call → JSON: floats that print as
+integers are integers; a split argument is exactly `{"split": v}`. -/
+def canonArg (split : Bool) (j : J) : J :=
+  if split then
+    match j with
+    | .obj kvs =>
+      match kvs.find splitKey with
+      | some v => .obj (.cons splitKey (normJ v) .nil)
+      | none => .lit .null
+    | _ => .lit .null
+  else normJ j
+
 /-- The invocation data a round trip returns: all parameters present in
-declaration order, floats normalised, absent arguments `null`. -/
+declaration order, absent arguments `null`, splitargs in declaration order. -/
 def canonData (sig : Sig) (d : Data) : Data :=
   { args := sig.map (fun p =>
-      (p.1, if d.args.any (fun q => q.1 = p.1) then normJ (lookupArg d.args p.1) else .lit .null)),
+      (p.1, if d.args.any (fun q => q.1 = p.1) then
+              canonArg (d.splitargs.contains p.1) (lookupArg d.args p.1)
+            else .lit .null)),
     splitargs := (sig.filter (fun p =>
       d.args.any (fun q => q.1 = p.1) && d.splitargs.contains p.1)).map (·.1) }
+
+/-! ## what the MRO grammar can express
+
+`split_bind_stm : id '=' SPLIT nonempty_collection_exp`: the operand of a
+top-level `split` must be a non-empty array or a non-empty map literal with
+quoted keys (a struct literal `{a: 1}` is not a `nonempty_map_exp`). -/
+def Arg.printable : Arg → Bool
+  | .plain _ => true
+  | .split (.arr (.cons _ _)) => true
+  | .split (.map false (.cons _ _ _)) => true
+  | .split _ => false
 
 end Martian.Invocation
